@@ -59,8 +59,10 @@ def triple(draw):
     return t
 
 
-def fit_triple(t):
-    """Train the registered triple from scratch; returns a dict of parameter arrays."""
+def fit_triple(t, reuse=None, other=None):
+    """Train the registered triple; returns a dict of parameter arrays.  `reuse`: dict holding estimator objects of
+    earlier fits of this triple (k-means / WCCN re-initialise on every fit, so the SAME object trained before on
+    `other` data must give the same result as a new one)."""
     import dask.bag as db
 
     from bob.learn.em import GMMMachine, ISVMachine, JFAMachine, KMeansMachine, WCCN
@@ -68,8 +70,15 @@ def fit_triple(t):
     kind = t["kind"]
     if kind == "kmeans":
         data = sut.dask_rows(t["X"], t["chunks"]) if t["dask"] else t["X"]
-        m = KMeansMachine(int(t["k"]), init_method=t["init"], random_state=int(t["seed"]), max_iter=3,
-                          convergence_threshold=None).fit(data)
+        m = None if reuse is None else reuse.get("obj")
+        if m is None:
+            m = KMeansMachine(int(t["k"]), init_method=t["init"], random_state=int(t["seed"]), max_iter=3,
+                              convergence_threshold=None)
+        elif other is not None:
+            m.fit(other)
+        m.fit(data)
+        if reuse is not None:
+            reuse["obj"] = m
         return {"centroids": np.asarray(m.centroids_, float)}
     if kind == "gmm":
         data = sut.dask_rows(t["X"], t["chunks"]) if t["dask"] else t["X"]
@@ -81,7 +90,14 @@ def fit_triple(t):
         return {"means": np.asarray(g.means, float), "variances": np.asarray(g.variances, float),
                 "weights": np.asarray(g.weights, float)}
     if kind == "wccn":
-        w = WCCN().fit(t["X"], np.asarray(t["y"]))
+        w = None if reuse is None else reuse.get("obj")
+        if w is None:
+            w = WCCN()
+        elif other is not None:
+            w.fit(other, np.asarray(t["y"]))
+        w.fit(t["X"], np.asarray(t["y"]))
+        if reuse is not None:
+            reuse["obj"] = w
         return {"weights": np.asarray(w.weights, float)}
     ubm = sut.make_gmm(t["ubm"])
     stats = [sut.make_stats(s) for s in t["sessions"]]
@@ -106,7 +122,8 @@ def g_history(draw):
         if name == "perturb":
             ops.append({"op": name, "k": gen.integer(draw, 0, 2**31 - 1), "j": gen.integer(draw, 0, 50)})
         else:
-            ops.append({"op": name, "i": gen.integer(draw, 0, len(triples) - 1)})
+            ops.append({"op": name, "i": gen.integer(draw, 0, len(triples) - 1), "same_object": gen.boolean(draw),
+                        "other_first": gen.boolean(draw)})
     return {"triples": triples, "ops": ops}
 
 
@@ -115,6 +132,7 @@ def c_history(ctx, case):
     """Re-fitting a registered (estimator, data, seed) triple gives the first result again, whatever happened in between."""
     triples = case["triples"]
     first = {}
+    objects = {}
     perturbed_since = {}
     hist = 0
     decisive = False
@@ -128,7 +146,12 @@ def c_history(ctx, case):
             continue
         i = int(op["i"])
         hist += 1
-        res = fit_triple(triples[i])
+        reuse = objects.setdefault(i, {}) if op.get("same_object") else None
+        other = None
+        if reuse is not None and "obj" in reuse:
+            ctx.event("re-fit of the same estimator object")
+            other = np.asarray(triples[i]["X"])[::-1] * 1.3 + 0.5 if op.get("other_first") else None
+        res = fit_triple(triples[i], reuse, other)
         for k, v in res.items():
             ctx.finite(v, "%s of %s" % (k, triples[i]["kind"]))
         if i not in first:
